@@ -2,6 +2,7 @@
 MODULES = [
     'contracts.keys',
     'contracts.layout',
+    'contracts.names',
 ]
 EXTRA_CHECKS = {}
 EXTRA_REPLAY = {}
